@@ -608,6 +608,17 @@ def check_real_representations(h: Harness):
                 ev = ParallelEvaluator() if evk == "parallel" else SequentialEvaluator()
                 try:
                     ev.evaluate(problem, inds)
+                    # ... and newcomers presented ONE AT A TIME (what Population does with every generation, what a mixed population with one
+                    # new member amounts to), the shared random source moving on between two of them
+                    for _ in range(3):
+                        try:
+                            one = Individual(rep.create_genotype(r), rep)
+                        except GeneticEngineError:
+                            continue
+                        ev.evaluate(problem, [one])
+                        r.randint(0, 10**6)
+                        inds.append(one)
+                        h.count(f"real-rep:{name}:{evk}:batches-of-one")
                 except Exception as e:  # noqa: BLE001
                     h.count(f"real-rep:{name}:{evk}:raised:{type(e).__name__}")
                     continue
@@ -705,6 +716,49 @@ def check_weights_learnt_between_generations(h: Harness):
         h.seen(f"learnt:{trial}:{name}", nontrivial=True)
 
 
+def check_adaptive_gp_counter(h: Harness):
+    """AdaptiveGeneticProgramming (adaptive mutation / crossover probabilities, feedback on the slice weights, a population size that
+    changes): whatever its steps look at on the way, the fitness function is invoked through the evaluator -- the evaluation counter
+    equals the number of invocations, nobody is evaluated twice, and what is recorded is what the function returned"""
+    from geneticengine.algorithms.gp.adaptive import AdaptiveGeneticProgramming
+    from geneticengine.algorithms.gp.structure import PopulationInitializer
+    from geneticengine.evaluation.budget import TimeBudget
+    from geneticengine.solutions.individual import Individual
+
+    class Plain(PopulationInitializer):
+        def initialize(self, problem, representation, random, target_size, **kwargs):
+            for _ in range(target_size):
+                yield Individual(representation.create_genotype(random), representation)
+    rng = h.rng
+    for trial in range(h.n(3, 30)):
+        keys = [rng.randint(0, 500) for _ in range(997)]
+        calls: list = []
+
+        def ff(ph, calls=calls):
+            calls.append(ph[0])
+            return float(ph[1])
+        problem = SingleObjectiveProblem(ff, minimize=trial % 2 == 0)
+        tracker = SingleObjectiveProgressTracker(problem, SequentialEvaluator())
+        try:
+            alg = AdaptiveGeneticProgramming(problem, AnyOf(EvaluationBudget(rng.choice([600, 1200])), TimeBudget(60)), ScriptRep(keys),
+                                             NativeRandomSource(rng.randrange(10**6)), tracker)
+            alg.population_initializer = Plain()
+            alg.population_size = rng.choice([40, 100])
+            alg.search()
+        except Exception as e:  # noqa: BLE001
+            h.fail("AdaptiveGeneticProgramming.search", "raises", f"AdaptiveGeneticProgramming raised {type(e).__name__}: {e}"[:300], {"trial": trial})
+            continue
+        h.count("adaptive-gp-counter-runs")
+        h.seen(f"adaptive-counter:{trial}", nontrivial=len(calls) > 200)
+        n = tracker.get_number_evaluations()
+        if n != len(calls):
+            h.fail("AdaptiveGeneticProgramming.search", "counter-differs-from-invocations",
+                   f"AdaptiveGeneticProgramming: the fitness function was invoked {len(calls)} times, the evaluation counter says {n}", {"trial": trial})
+        elif len(set(calls)) != len(calls):
+            h.fail("AdaptiveGeneticProgramming.search", "fitness-function-called-twice",
+                   f"AdaptiveGeneticProgramming: {len(calls) - len(set(calls))} individuals were handed to the fitness function more than once", {"trial": trial})
+
+
 def check_simplegp_problems(h: Harness):
     """the problem the SimpleGP wrapper builds from a fitness function and a `minimize` given as a bool, as a list of one, or as a
     longer list: the aggregate is the value when maximising, its negation when minimising, the signed sum for several objectives"""
@@ -786,6 +840,7 @@ def check_parallel_sees_current_data(h: Harness):
 
 def run(h: Harness):
     check_parallel_sees_current_data(h)
+    check_adaptive_gp_counter(h)
     check_unnumbered_objectives(h)
     check_simplegp_problems(h)
     check_weights_learnt_between_generations(h)
